@@ -201,6 +201,12 @@ fn image_cases(tier: Tier) -> Vec<ImgCase> {
     v
 }
 
+
+/// arcs and sectors only (the family whose trigonometry changes with the `fixed_point` feature)
+fn angle_shapes(pos: P2) -> Vec<Shape> {
+    shape_catalogue(false, pos).into_iter().filter(|s| matches!(s, Shape::Arc { .. } | Shape::Sector { .. })).collect()
+}
+
 fn run_part(run: &mut Run) {
     let tier = run.tier;
     let t = tier.is_thorough();
@@ -213,6 +219,9 @@ fn run_part(run: &mut Run) {
                 || product(&shape_catalogue(false, (-20, -17)), &styles(3)), check_prim::<Rgb565>);
             run.sweep_vec("shapes-binary", "shape catalogue x S(2) in BinaryColor", || product(&shape_catalogue(false, (-2, -3)), &styles(2)), check_prim::<BinaryColor>);
             run.sweep_vec("shapes-gray8", "shape catalogue x S(2) in Gray8", || product(&shape_catalogue(false, (3, -1)), &styles(2)), check_prim::<Gray8>);
+        }
+        "angles-fixed-point" => {
+            run.sweep_vec("arcs-sectors-fixed-point", "arcs and sectors of the catalogue x S(W) in the fixed_point build", || product(&angle_shapes((-2, -3)), &styles(w)), check_prim::<Rgb565>);
         }
         "triangles" => {
             run.sweep_vec("triangles-rgb565", "all vertex triples of a 5x5 grid stride 2 (thorough: plus 6x6 stride 1) x S(W)",
@@ -247,7 +256,7 @@ fn main() {
         level: "exploration",
         rule: "every drawable of the listed catalogue (distinct by construction, counted by hash) is rendered on a draw_iter-only target that inherits the trait defaults, on a target with native fill_contiguous/fill_solid/clear, and (styled primitives) through pixels() fed to draw_iter; non-trivial = at least one pixel drawn; the unbounded last-write-wins pixel maps must be equal",
         assumptions: &["bounded to the listed catalogue (sizes, grids, stroke widths, fonts, strings)", "the harness's native target implements the documented meaning of fill_contiguous (row-major, stops at the shorter of area and stream), fill_solid and clear"],
-        parts: |_| vec![PartSpec::new("shapes", "verif"), PartSpec::new("triangles", "verif"), PartSpec::new("polylines", "verif"), PartSpec::new("images-text", "verif")],
+        parts: |_| vec![PartSpec::new("shapes", "verif"), PartSpec::new("triangles", "verif"), PartSpec::new("polylines", "verif"), PartSpec::new("images-text", "verif"), PartSpec::new("angles-fixed-point", "verif_fp")],
         run_part,
         required_classes: |_| vec!["rect", "circle", "ellipse", "rrect", "triangle", "line", "arc", "sector", "polyline", "fill-only", "stroke-only", "fill+stroke", "stroke-colour-absent-width>0", "width-0", "fully-negative", "image", "sub-image", "sub-sub-image", "row-padding", "text", "text-background", "text-decoration", "text-multiline", "bounded-target", "overhangs-the-target"],
         crash_is_verdict: false,
